@@ -662,7 +662,14 @@ func (c *cenv) call(n *ast.CallExpr) Val {
 			if a == "false" {
 				return termVal(boolT, sBool, "true")
 			}
+			saved := e.err
 			b := c.evalBool(n.Args[1])
+			if saved == nil && e.err != nil && strings.Contains(e.err.Error(), "callres: no call of") {
+				// the consequent speaks about the result of a call this path does not make: it cannot hold here,
+				// so the implication holds exactly when the antecedent is false on this path
+				e.err = nil
+				return termVal(boolT, sBool, tNot(a))
+			}
 			return termVal(boolT, sBool, tImplies(a, b))
 		case "iff":
 			a := c.evalBool(n.Args[0])
@@ -1113,8 +1120,18 @@ func (c *cenv) kvOp(name string, n *ast.CallExpr) Val {
 	e := c.e
 	m := c.eval(n.Args[0])
 	k := c.eval(n.Args[1])
-	mt := e.term(c.st(), m)
-	kt := e.term(c.st(), k)
+	if m.K == kIface && m.Inner != nil && m.Inner.K == kStore {
+		m = *m.Inner
+	}
+	var mt, kt string
+	if m.K == kStore && (name == "kvget" || name == "kvhas") {
+		// a store handle (prefix view): read the component it is a view of, at the view's prefix
+		mt = e.readComp(c.st(), m.Store.World, m.Store.Comp)
+		kt = e.segsTerm(concatSegs(m.Store.Prefix, e.byteSegs(c.st(), k)))
+	} else {
+		mt = e.term(c.st(), m)
+		kt = e.term(c.st(), k)
+	}
 	bytesT := types.NewSlice(types.Typ[types.Uint8])
 	switch name {
 	case "kvget":
